@@ -46,7 +46,7 @@ try:
         for c in checks:
             e = dict(os.environ, VERIF_REPO=str(wt), VERIF_EVIDENCE_DIR=str(scratch / "ev"), VERIF_REPLAYS_DIR=str(scratch / "rp"))
             t0 = time.time()
-            cr = run(["/verif/check", c, "--tier", tier], cwd="/verif", env=e)
+            VR = os.environ.get("VERIF_ROOT", "/verif"); cr = run([VR + "/check", c, "--tier", tier], cwd=VR, env=e)
             viol = [l for l in cr.stdout.splitlines() if l.startswith("VIOLATION")]
             info = {"exit": cr.returncode, "violation_lines": [v.replace(str(scratch), "<scratch>") for v in viol], "wall_s": round(time.time() - t0, 1), "tier": tier}
             if viol:
